@@ -4,6 +4,7 @@ Written from the format descriptions; shares no code with /repo/trees.
 Encoders produce text for the readers under test (with layout variants),
 decoders read what the writers under test produced.  Model trees are vt.model.MT.
 """
+import os
 import re
 import itertools
 import xml.etree.ElementTree as ET
@@ -17,6 +18,16 @@ _WS = ' \t\n\r\x0b\x0c'
 
 class DecodeError(Exception):
     pass
+
+
+def read_out(path, enc='utf-8'):
+    """Text of a file the tool wrote; a file that is not valid `enc` is a DecodeError (a finding), not a crash."""
+    with open(path, 'rb') as f:
+        raw = f.read()
+    try:
+        return raw.decode(enc)
+    except UnicodeDecodeError as e:
+        raise DecodeError('%s is not valid %s: %s' % (os.path.basename(path), enc, e))
 
 
 # ---------------------------------------------------------------- helpers
